@@ -55,9 +55,9 @@ def specs(T):
     iqr = _nums(T, D, 'interquartile_range', 3)               # @on_array(0) ; 75 ; 25
     T.body_contains(D, 'interquartile_range', 'return np.percentile(a, 75) - np.percentile(a, 25)')
     mse = _nums(T, D, 'mean_squared_error', 2)                # @on_array(0) ; 2
-    biv = _nums(T, D, 'biweight_midvariance', 14)
+    biv = _nums(T, D, 'biweight_midvariance', 13)
     for frag in ('initial = biweight_location(a)', 'w = d / max(c * mad, epsilon)', 'mask = np.abs(w) < 1',
-                 'if w[mask].sum() == 0:', 'return mad * 1.4826', 'w_ = (w ** 2)[mask]',
+                 'if not w[mask].any():', 'return mad * 1.4826', 'w_ = (w ** 2)[mask]',
                  'return np.sqrt(n * (d_ ** 2 * (1 - w_) ** 4).sum() / ((1 - w_) * (1 - 5 * w_)).sum() ** 2)'):
         T.body_contains(D, 'biweight_midvariance', frag)
     bil = _nums(T, D, 'biweight_location', 8)
@@ -107,8 +107,8 @@ def specs(T):
         ('bivar_single', 'Q', biv[0]),
         ('bivar_c', 'Q', T.default(D, 'biweight_midvariance', 'c')),
         ('bivar_eps', 'Q', T.default(D, 'biweight_midvariance', 'epsilon')),
-        ('bivar_mask_bound', 'Q', biv[3]), ('bivar_mad_scale', 'Q', biv[5]),
-        ('bivar_num_pow', 'Z', biv[9]), ('bivar_five', 'Q', biv[12]),
+        ('bivar_mask_bound', 'Q', biv[3]), ('bivar_mad_scale', 'Q', biv[4]),
+        ('bivar_num_pow', 'Z', biv[8]), ('bivar_five', 'Q', biv[11]),
         ('biloc_c', 'Q', T.default(D, 'biweight_location', 'c')),
         ('biloc_eps', 'Q', T.default(D, 'biweight_location', 'epsilon')),
         ('biloc_max_iter', 'Z', T.default(D, 'biweight_location', 'max_iter')),
